@@ -36,11 +36,12 @@ func (eval Evaluator) EvaluateAndScaleNew(ct *rlwe.Ciphertext, scaling complex12
 		return nil, fmt.Errorf("cannot Evaluate: ct.Level() < Mod1Parameters.LevelQ")
 	}
 
-	if ct.Level() > evm.LevelQ {
-		eval.DropLevel(ct, ct.Level()-evm.LevelQ)
-	}
-
+	// The input is left as it is: the levels are dropped on the copy.
 	res = ct.CopyNew()
+
+	if res.Level() > evm.LevelQ {
+		eval.DropLevel(res, res.Level()-evm.LevelQ)
+	}
 
 	// Normalize the modular reduction to mod by 1 (division by Q)
 	res.Scale = evm.ScalingFactor()
@@ -53,7 +54,7 @@ func (eval Evaluator) EvaluateAndScaleNew(ct *rlwe.Ciphertext, scaling complex12
 
 	targetScale := res.Scale
 	for i := 0; i < evm.DoubleAngle; i++ {
-		targetScale = targetScale.Mul(rlwe.NewScale(Qi[ct.Level()-evm.Mod1Poly.Depth()-evm.DoubleAngle+i+1]))
+		targetScale = targetScale.Mul(rlwe.NewScale(Qi[evm.LevelQ-evm.Mod1Poly.Depth()-evm.DoubleAngle+i+1]))
 		targetScale.Value.Sqrt(&targetScale.Value)
 	}
 
